@@ -127,6 +127,9 @@ func GenRequests(g *tape.Stream, fg *tape.Stream, s *Setup, p *Profile) [][]*Req
 				q.Hdr = append(q.Hdr, [2]string{"Cookie", "ck=c" + q.Name})
 			}
 			q.Flusher = g.Intn(3) == 1
+			if g.Intn(4) == 1 {
+				q.Hijacker = 1
+			}
 			switch g.Intn(6) {
 			case 1:
 				q.Host = "localhost"
@@ -213,7 +216,7 @@ func CloneForTwin(in [][]*Req) [][]*Req {
 	for i := range in {
 		for _, r := range in[i] {
 			c := &Req{ID: r.ID, Name: r.Name, Chain: r.Chain, Body: r.Body, CtxErr: r.CtxErr, Host: r.Host, Method: r.Method, Path: r.Path, Query: r.Query, Hdr: r.Hdr, Progs: r.Progs, Rets: r.Rets,
-				WPlan: r.WPlan, Flusher: r.Flusher, Tag: r.Tag}
+				WPlan: r.WPlan, Flusher: r.Flusher, Hijacker: r.Hijacker, Tag: r.Tag}
 			c.PlannedCancel = r.PlannedCancel
 			if r.AsyncCancelAt >= 0 {
 				c.PlannedCancel = r.AsyncCancelAt
